@@ -62,6 +62,7 @@ def parseCell (t : List String) : Option Cell := do
   let qGiven ← (kv t "qgiven") >>= parseB
   let engine ← (kv t "eng") >>= parseEngineOpt
   let dtypeGiven ← (kv t "dtypegiven") >>= parseB
+  let dtypeInt ← (kv t "dtypeint") >>= parseB
   let method ← (kv t "method") >>= parseMethodOpt
   let reindex ← (kv t "reindex") >>= parseOptBool
   let byDask ← (kv t "bydask") >>= parseB
@@ -78,7 +79,7 @@ def parseCell (t : List String) : Option Cell := do
   let hasNumbagg ← (kv t "numbagg") >>= parseB
   let aligned ← (kv t "aligned") >>= parseB
   some { kind := fk.cls, method, reindex, byDask, arrDask, ax := axisRel nax ndim, expected, isFloat, preferred,
-         cohortsEmpty, singleBlock, aligned, fk, qGiven, engine, dtypeGiven, countMask, sorted, hasNumbagg }
+         cohortsEmpty, singleBlock, aligned, fk, qGiven, engine, dtypeGiven, dtypeInt, countMask, sorted, hasNumbagg }
 
 def handleC19Validate (secs : List (List String)) : String :=
   match secs with
